@@ -43,7 +43,9 @@ def cases(tier):
             # 'rhs' / 'guess': only that object is complex (mixed dtypes); 'tail': right-hand side and guess have real first
             # cores and complex later ones; 'tailop': only the operator is complex, and only from its second core on
             for c in (False, True, 'rhs', 'guess', 'tail', 'tailop'):
-                for opk in ('dense', 'ttbuilt', 'kronint'):
+                for opk in ('dense', 'ttbuilt', 'kronint', 'diagfirst'):
+                    if opk == 'diagfirst' and (d == 1 or c not in (False, True) or dims[0] < 2):
+                        continue
                     if c in ('rhs', 'guess', 'tail', 'tailop') and (opk == 'ttbuilt' or d == 4):
                         continue
                     if c in ('tail', 'tailop') and d == 1:
@@ -155,6 +157,29 @@ def make_problem(case, rng):
         op = TT(cores)                       # Kronecker product of tridiagonal SPD integer matrices, int64 cores
         A = mat(op).astype(float)
         b = TT([np.rint((1000 if d <= 3 else 20) * rng.standard_normal((1 if i == 0 else case['rb'], dims[i], 1, 1 if i == d - 1 else case['rb']))).astype(np.int64) for i in range(d)])
+        return op, A, b
+    if case['op'] == 'diagfirst':
+        # Kronecker sum D (x) I + I (x) A_2 + ... with a DIAGONAL first factor, right-hand side supported on the last index of
+        # the first mode: the solution vanishes exactly on the other first-mode indices (sparse, structured data)
+        def spd(m_):
+            Bi = rng.standard_normal((m_, m_)) + (1j * rng.standard_normal((m_, m_)) if c else 0)
+            return Bi.conj().T @ Bi / m_ + np.eye(m_)
+        facs = [np.diag(1.0 + np.arange(dims[0]))] + [spd(m_) for m_ in dims[1:]]
+        cores = []
+        for i_, m_ in enumerate(dims):
+            I_ = np.eye(m_)
+            if i_ == 0:
+                cr = np.zeros((1, m_, m_, 2), dtype=complex if c else float); cr[0, :, :, 0] = facs[0]; cr[0, :, :, 1] = I_
+            elif i_ == d - 1:
+                cr = np.zeros((2, m_, m_, 1), dtype=complex if c else float); cr[0, :, :, 0] = I_; cr[1, :, :, 0] = facs[i_]
+            else:
+                cr = np.zeros((2, m_, m_, 2), dtype=complex if c else float); cr[0, :, :, 0] = I_; cr[1, :, :, 0] = facs[i_]; cr[1, :, :, 1] = I_
+            cores.append(cr)
+        op = TT(cores)
+        A = mat(op)
+        bc = rand_cores(rng, dims, [1] * d, [1] + [case['rb']] * (d - 1) + [1], c)
+        bc[0][:, :-1, :, :] = 0.0
+        b = tt_from(bc)
         return op, A, b
     if cc == 'tailop':
         # Kronecker product of a real SPD first factor and complex HPD later factors: the first operator core is real
